@@ -584,12 +584,28 @@ impl BufferTransformT for ASCII85Decode<'_> {
         // does.
         let mut digits = String::with_capacity(body.len());
         let mut n = 0; // characters in the current group
+        let mut value: u64 = 0; // and their value
+        // The crate accumulates a group in a u32 without checking
+        // for overflow (it wraps in release builds).
+        let too_large = || {
+            let err = ErrorKind::TransformError(
+                "ASCII85Decode: group value exceeds 2^32 - 1".to_string(),
+            );
+            locate_value(err, loc.loc_start(), loc.loc_end())
+        };
         for c in body.strip_prefix("<~").unwrap_or(body).chars() {
             match c {
                 'z' if n == 0 => digits.push_str("!!!!!"),
                 '!' ..= 'u' => {
                     digits.push(c);
+                    value = value * 85 + (c as u64 - 33);
                     n = (n + 1) % 5;
+                    if n == 0 {
+                        if value > u64::from(u32::MAX) {
+                            return Err(too_large())
+                        }
+                        value = 0;
+                    }
                 },
                 // this includes a 'z' inside a group
                 c => {
@@ -608,6 +624,16 @@ impl BufferTransformT for ASCII85Decode<'_> {
                 "ASCII85Decode: final group of a single character".to_string(),
             );
             return Err(locate_value(err, loc.loc_start(), loc.loc_end()))
+        }
+        // The missing characters of a final partial group count as
+        // 'u'.
+        if n > 1 {
+            for _ in n .. 5 {
+                value = value * 85 + 84;
+            }
+            if value > u64::from(u32::MAX) {
+                return Err(too_large())
+            }
         }
 
         let prev_hook = panic::take_hook();
